@@ -294,6 +294,9 @@ impl C41 {
         let whole = concat(schema, batches)?;
         let after_end = Arc::new(AtomicUsize::new(0));
         let sz = |i: usize| (input.chunk[i] as usize).max(1);
+        // no correct chunker emits more items than rows + input batches: a stream that is still going then would never end
+        // (the row-count checks below then fail on the truncated output instead of the process running out of memory)
+        let bound = total + batches.len() + 8;
         let strict_sizes = |what: &str, out: &[usize], size: usize| -> CheckResult {
             for (i, n) in out.iter().enumerate() {
                 if i + 1 < out.len() {
@@ -317,7 +320,7 @@ impl C41 {
         // chunk_stream
         let size = sz(0);
         let out: Vec<Vec<RecordBatch>> = env
-            .block_on(chunk_stream(src(schema, batches, &after_end), size).collect::<Vec<_>>())
+            .block_on(chunk_stream(src(schema, batches, &after_end), size).take(bound).collect::<Vec<_>>())
             .into_iter()
             .collect::<Result<_, _>>()
             .map_err(|e| Failure::new("chunk-error", format!("chunk_stream({size}): {e}")))?;
@@ -339,7 +342,7 @@ impl C41 {
         let s = chunk_concat_stream(src(schema, batches, &after_end), size);
         ensure!(s.schema() == *schema, "chunk-schema", "chunk_concat_stream({size}): stream schema differs");
         let out: Vec<RecordBatch> = env
-            .block_on(s.collect::<Vec<_>>())
+            .block_on(s.take(bound).collect::<Vec<_>>())
             .into_iter()
             .collect::<Result<_, _>>()
             .map_err(|e| Failure::new("chunk-error", format!("chunk_concat_stream({size}): {e}")))?;
@@ -349,7 +352,7 @@ impl C41 {
         // break_stream
         let size = sz(2);
         let out: Vec<RecordBatch> = env
-            .block_on(break_stream(src(schema, batches, &after_end), size).collect::<Vec<_>>())
+            .block_on(break_stream(src(schema, batches, &after_end), size).take(bound).collect::<Vec<_>>())
             .into_iter()
             .collect::<Result<_, _>>()
             .map_err(|e| Failure::new("chunk-error", format!("break_stream({size}): {e}")))?;
@@ -380,7 +383,7 @@ impl C41 {
         // StrictBatchSizeStream
         let size = sz(3);
         let out: Vec<RecordBatch> = env
-            .block_on(StrictBatchSizeStream::new(src(schema, batches, &after_end), size).collect::<Vec<_>>())
+            .block_on(StrictBatchSizeStream::new(src(schema, batches, &after_end), size).take(bound).collect::<Vec<_>>())
             .into_iter()
             .collect::<Result<_, _>>()
             .map_err(|e| Failure::new("chunk-error", format!("StrictBatchSizeStream({size}): {e}")))?;
